@@ -4,6 +4,7 @@ from contracts import c12_rxn_arith as ARITH
 from contracts import c12_model_copy as MCOPY
 from contracts import w_tolerance as WT
 from contracts import c12_pickle as PK
+from contracts import c12_species_copy as SC
 from props._generic import run_property, replay_with_driver
 
 LEVEL = "other"
@@ -11,7 +12,14 @@ KEYS = ["Reaction.copy", "Model.__setstate__", "Reaction.update_variable_bounds"
 
 
 def run(rep):
-    run_property(rep, KEYS, more=list(ARITH.GROUPS) + [(MCOPY.KEYS, MCOPY.HOOKS), (WT.KEYS, WT.HOOKS), (PK.KEYS + PK.ASSUMED_KEYS, PK.HOOKS)], lemmas=lambda: ARITH.lemmas() + MCOPY.lemmas() + PK.lemmas(), explanation=(
+    run_property(rep, KEYS, more=list(ARITH.GROUPS) + [(MCOPY.KEYS, MCOPY.HOOKS), (WT.KEYS, WT.HOOKS), (PK.KEYS + PK.ASSUMED_KEYS, PK.HOOKS), (SC.KEYS, SC.HOOKS)], lemmas=lambda: ARITH.lemmas() + MCOPY.lemmas() + PK.lemmas(), explanation=(
+        "Species.copy (= Metabolite.copy / Gene.copy; contracts/c12_species_copy.py; body `return deepcopy(self)`), for a species with ANY "
+        "model pointer and ANY reaction set: the value returned is a NEW object of the same class (did not exist at entry: python "
+        "identity and allocation stamp), DETACHED (`_model` None), whose `_reaction` is a NEW EMPTY set - not the original's -, with the "
+        "same `_id`, name and scalar attributes and deep copies (new objects) of notes / annotation; the original keeps every attribute "
+        "with the very object it held (`_model`, the `_reaction` set and its content included) and no heap field is written. Proved "
+        "through the PROVED Species.__getstate__ contract applied at the call site, relative to the ASSUMED deepcopy codec (one "
+        "__getstate__ call, one new instance whose attributes are structural deep copies of the state's entries, no memo). "
         "The pickle / deepcopy PROTOCOL methods (contracts/c12_pickle.py; obj.__dict__ = record over the attribute names derived from the "
         "__init__ sources, as for Model.copy): Model.__getstate__ returns a NEW dictionary with exactly the model's attributes, every "
         "entry but `_contexts` holding the attribute's own value and `_contexts` a NEW EMPTY list - the model itself keeps every "
@@ -62,7 +70,7 @@ def run(rep):
         "What stays with the bounded driver: that a deep copy has the CONTENT of its source and the optimum of the copied solver "
         "(snapshot equality of copy/deepcopy/pickle incl. the solver problem, then every edit and depth-2 edit sequence incl. in-place "
         "edits of notes/annotations applied to one side with the other side compared, reaction arithmetic operands unchanged)."),
-        trusted=["copy.copy / copy.deepcopy / pickle (assumed)", "pickle protocol: the codec copies state dictionaries structurally, calls each restored object's __setstate__ once and restores a reaction's metabolites / genes before the reaction; GPR.__str__ = to_string() text (rule_text), GPR.from_string(text) returns a new rule object parsed from that text (recorded call; text round trip bounded elsewhere); instances have exactly the attributes their __init__ methods assign", "Model.copy: allocation by the constructors Model() / Metabolite() / Gene(None) / Reaction() / Group(id), "
+        trusted=["copy.copy / copy.deepcopy / pickle (assumed)", "Species.copy: copy.deepcopy of an instance with __getstate__ and without __deepcopy__ / __setstate__ / __reduce__ calls __getstate__ once and builds ONE new instance from structural deep copies of the state's entries (scalars themselves, references new objects, an empty set a new empty set); no memo from an enclosing deepcopy; instances have exactly the attributes their __init__ methods assign", "pickle protocol: the codec copies state dictionaries structurally, calls each restored object's __setstate__ once and restores a reaction's metabolites / genes before the reaction; GPR.__str__ = to_string() text (rule_text), GPR.from_string(text) returns a new rule object parsed from that text (recorded call; text round trip bounded elsewhere); instances have exactly the attributes their __init__ methods assign", "Model.copy: allocation by the constructors Model() / Metabolite() / Gene(None) / Reaction() / Group(id), "
                  "copy() and deepcopy() returns a NEW object (assumed contracts); set-valued fields are modelled by value; "
                  "(Reaction.update_genes_from_gpr and Group.add_members: their contracts proved under C02 are applied at the call sites, "
                  "call-site lemmas obliged); a copy of a rule object has the same gene names", "optlang: solver.configuration.tolerances is a function of the solver object; assigning a tolerance attribute stores the value there or raises AttributeError with nothing written (ghost predicate tol_supported); logger / interface_to_str opaque", "an exception inside deepcopy would leave the pointers cleared "
